@@ -48,7 +48,16 @@ def oracle(summary):
     return viol
 
 
+def trace_oracle(summary):
+    return oracle(summary)
+
+
+EXTRA_TARGETS = ["wvsearch"]
+
+
 def run_case(case):
+    if case.get("kind") == "trace":
+        return mc.run_trace_case(case, trace_oracle)
     if "ops" in case:
         ob, summary = mc.replay(case["ops"], welcome_error=case.get("welcome_error"), npeers=case.get("npeers"),
                                 seed=case.get("seed", 0))
@@ -73,6 +82,9 @@ def explicit(case):
 
 
 def shrink(case):
+    if case.get("kind") == "trace":
+        yield from mc.trace_shrink(case)
+        return
     case = explicit(case)
     ops = case["ops"]
     n = len(ops)
@@ -90,6 +102,7 @@ def shrink(case):
 
 def search(rng, seconds, seeds):
     t0 = time.time()
+    yield from mc.model_guided(trace_oracle)
     for c in seeds:
         yield c, run_case(c)
     while time.time() - t0 < seconds:
